@@ -371,6 +371,35 @@ class GVal:
     def __neg__(self):
         return GVal(-self.data, self.sym, self.reads)
 
+    def __getitem__(self, idx):
+        """re-slicing of a value: ':' everywhere, or a prefix slice ':n' (n an extent expression) on a symbolic-length axis"""
+        if not isinstance(idx, tuple):
+            idx = (idx,)
+        nd = self.data.ndim
+        idx = idx + (slice(None),) * (nd - len(idx))
+        if len(idx) != nd:
+            raise alg.Undecided("indexing a value with %d indices (it has %d axes)" % (len(idx), nd))
+        sym = {k: list(v) for k, v in self.sym.items()}
+        for pos, x in enumerate(idx):
+            slot = nd - pos
+            if not isinstance(x, slice) or x.start not in (None, 0) or x.step not in (None, 1):
+                raise alg.Undecided("only ':' and ':n' are supported when a value is sliced again")
+            if x.stop is None:
+                continue
+            if slot not in sym:
+                raise alg.Undecided("a prefix slice on a concrete axis of a value")
+            sym[slot] = [SymAxis(ax.lo, ax.ubs + [ax.lo + Aff.of(x.stop)]) for ax in sym[slot]]
+        reads = []
+        for r in self.reads:  # the elements read are now only those inside the prefix
+            r = dict(r)
+            extra = []
+            for pos, x in enumerate(idx):
+                if isinstance(x, slice) and x.stop is not None:
+                    extra.append(("lt", Aff.var("p%d" % (nd - pos)), Aff.of(x.stop)))
+            r["cons"] = r["cons"] + extra
+            reads.append(r)
+        return GVal(self.data, sym, reads)
+
     def map(self, f):
         out = _np.empty(self.data.shape, dtype=object)
         of, df = out.reshape(-1), self.data.reshape(-1)
@@ -391,6 +420,8 @@ def _index(idx, dims, tail_shape):
         idx = idx + (slice(None),) * (nsrc - given)  # missing trailing indices mean ':'
     elif given > nsrc:
         raise alg.Undecided("too many indices (got %r)" % (idx,))
+    if any(isinstance(x, _np.ndarray) for x in idx):
+        raise StageEnd("a table is indexed with integer arrays (selection of angular-momentum components): beyond the generic-element fragment")
     out, points = [], {}
     ax = 0
     for x in idx:
@@ -513,6 +544,28 @@ class GArray:
         finally:
             C.atom = real_atom
         return GVal(data, sym, [ev])
+
+    # arithmetic on the whole table = arithmetic on a full slice of it (a read of every element)
+    def _all(self):
+        return self[(slice(None),) * (len(self.dims) + len(self.tail))]
+
+    def __mul__(self, o):
+        return self._all() * o
+
+    def __rmul__(self, o):
+        return o * self._all()
+
+    def __add__(self, o):
+        return self._all() + o
+
+    def __radd__(self, o):
+        return o + self._all()
+
+    def __sub__(self, o):
+        return self._all() - o
+
+    def __truediv__(self, o):
+        return self._all() / o
 
     def __setitem__(self, idx, val):
         C = CTX[0]
